@@ -269,6 +269,20 @@ impl Monitor for C03 {
             let ast = match k % 8 {
                 7 => gen_many_groups(&mut rng),
                 6 => gen_pattern(&mut rng, &weak),
+                4 if k % 16 == 4 => {
+                    // a parenthesis or bracket as a class member before groups that end where an
+                    // empty group begins: analyze's nesting table must not count it as a group
+                    let ch = |rng: &mut Rng| Node::Char(*rng.pick(&['a', 'b']));
+                    let cls = |rng: &mut Rng| Node::Class(ClassExpr { neg: rng.chance(1, 4), items: vec![ClassItem::Ch(*rng.pick(&['(', ')', '[', ']'])), ClassItem::Ch(*rng.pick(&['(', 'x', ')']))], sub: None });
+                    let opt = |n: Node, rng: &mut Rng| Node::Repeat { body: Box::new(n), min: 0, max: if rng.chance(1, 2) { Some(1) } else { None }, greedy: true, spell: 0 };
+                    let empty_group = |rng: &mut Rng| Node::Group(Box::new(opt(Node::Char(*rng.pick(&['b', ','])), rng)));
+                    match rng.below(4) {
+                        0 => Node::Cat(vec![Node::Group(Box::new(Node::Cat(vec![cls(&mut rng), ch(&mut rng)]))), empty_group(&mut rng)]),
+                        1 => Node::Cat(vec![Node::Group(Box::new(Node::Cat(vec![ch(&mut rng), opt(cls(&mut rng), &mut rng), empty_group(&mut rng)]))), empty_group(&mut rng)]),
+                        2 => Node::Cat(vec![cls(&mut rng), Node::Group(Box::new(ch(&mut rng))), empty_group(&mut rng)]),
+                        _ => Node::Cat(vec![Node::Group(Box::new(Node::Repeat { body: Box::new(ch(&mut rng)), min: 1, max: None, greedy: true, spell: 0 })), Node::Group(Box::new(opt(cls(&mut rng), &mut rng))), empty_group(&mut rng)]),
+                    }
+                }
                 4 => gen_pattern(&mut rng, &meta),
                 _ => gen_pattern(&mut rng, &cfg),
             };
@@ -291,7 +305,36 @@ impl Monitor for C03 {
             for _ in 0..3 {
                 let extra: &[char] = if k % 8 == 4 { &['a', 'b', '(', ')', '[', ']'] } else { &['a', 'b', 'c', '\u{10400}', '\n'] };
                 let inp = gen_input(&mut rng, &ast, extra, 9);
-                emit(Case::new(&ast, fl, &inp));
+                let mut c = Case::new(&ast, fl, &inp);
+                if k % 8 == 4 && rng.chance(1, 2) {
+                    // parentheses need no escape inside a class: write them raw there
+                    let mut out = String::new();
+                    let mut depth = 0usize;
+                    let pc: Vec<char> = c.pattern.chars().collect();
+                    let mut i = 0;
+                    while i < pc.len() {
+                        let ch = pc[i];
+                        if ch == '\\' && i + 1 < pc.len() {
+                            if depth > 0 && (pc[i + 1] == '(' || pc[i + 1] == ')') {
+                                out.push(pc[i + 1]);
+                            } else {
+                                out.push(ch);
+                                out.push(pc[i + 1]);
+                            }
+                            i += 2;
+                            continue;
+                        }
+                        if ch == '[' {
+                            depth += 1;
+                        } else if ch == ']' && depth > 0 {
+                            depth -= 1;
+                        }
+                        out.push(ch);
+                        i += 1;
+                    }
+                    c.pattern = out;
+                }
+                emit(c);
             }
         }
         J::obj().with("random_patterns_this_shard", J::u(n))
